@@ -1221,6 +1221,30 @@ def m_vec_retain(ex, st, call):
     return go(st, 0, [])
 
 
+@model(r'^Vec::dedup_by$')
+def m_vec_dedup_by(ex, st, call):
+    """removes every element for which same_bucket(&mut element, &mut last kept element) is true (consecutive duplicates only)"""
+    r, f = call.args
+    v = deref(ex, st, r)
+    if not isinstance(v, VecV):
+        return None
+    items = list(v.items)
+
+    def go(s, k, kept):
+        if k == len(items):
+            ex.store(s, r.addr, r.path, VecV(kept, v.elem_ty))
+            return ex.ret(s, call, UNIT)
+        if not kept:
+            return go(s, k + 1, [items[k]])
+        a = s.alloc(items[k])
+        b = s.alloc(kept[-1])
+
+        def cont(ex_, s2, res):
+            return two_way(ex_, s2, res.e, lambda s3: go(s3, k + 1, kept), lambda s3: go(s3, k + 1, kept + [items[k]]))
+        return ex.invoke_callable(s, f, [Ref(a), Ref(b)], cont)
+    return go(st, 0, [])
+
+
 @model(r'^math::fract$|^libm::fract$')
 def m_math_fract(ex, st, call):
     x = call.args[0].e
@@ -2227,9 +2251,10 @@ def m_abs_vec_pop(ex, st, call):
 
     def some(s):
         vv = deref(ex, s, r)
-        s.event('abs_pop', vv.tok)
+        nm = '$pop%d' % len(s.events)      # path-deterministic name of the popped element
+        s.event('abs_pop', vv.tok, nm)
         ex.store(s, r.addr, r.path, AbsVec(vv.n - 1, (vv.tok, 'pop', len(s.events)), vv.elem_ty))
-        elem = ex.fresh(s, vv.elem_ty, 'popped') if vv.elem_ty else Opaque('elem')
+        elem = ex.fresh(s, vv.elem_ty, nm) if vv.elem_ty else Opaque('elem')
         return ex.ret(s, call, ex.some(elem))
     return two_way(ex, st, v.n != 0, some, lambda s: ex.ret(s, call, ex.none()))
 
